@@ -29,6 +29,9 @@ FAMILIES['C04'] = [
     fam('hold-intr-timer', ['TADD HOLD HOLD', 'HOLD INTR0'], PRIOSYM=1, witness=True),
     fam('two-timers-cancel', ['TADD TADD HOLD TCANCEL HOLD', 'HOLD INTR0'], w=6),
     fam('timers-clear', ['TADD TADD TCLEAR HOLD TADD HOLD']),
+    fam('timers-clear-after-waitp', ['TADD TADD WAITP1 TCLEAR HOLD', 'HOLD HOLD'], w=4),
+    fam('timers-cancel-after-acquire', ['TADD TADD ACQ TCANCEL HOLD REL', 'ACQ HOLD HOLD REL'], w=4),
+    fam('timers-clear-after-yield', ['TADD TADD YIELD TCLEAR HOLD', 'HOLD RESUME0'], w=3),
     fam('lonely-interrupt', ['HOLD HOLDZ', 'INTR0'], PRIOSYM=1),
     fam('holdz-chain', ['HOLDZ TADD HOLDZ HOLD', 'HOLDZ INTR0']),
     fam('waitp-timeout-then-hold', ['TADD WAITP1 HOLD', 'HOLD HOLD'], w=3),
@@ -94,6 +97,8 @@ FAMILIES['C07'] = [
     fam('pool-topup-interrupted', ['PACQ HOLD PACQ HOLD PRELALL', 'PACQ HOLD PRELALL', 'HOLD INTR0'], POOLCAP=4, w=8),
     fam('pool-firstgrab-interrupted', ['PACQ HOLD PRELALL', 'PACQ HOLD', 'HOLD INTR1', 'PACQ HOLD PRELALL'], POOLCAP=3, w=10),
     fam('pool-prio-change', ['PACQ HOLD PRELALL', 'HOLD PPRE HOLD', 'HOLD PRIO0'], PRIOS='{0,1,0}', w=4),
+    fam('pool-preemptor-reprioritised-while-blocked', ['PACQ HOLD PREL HOLD PREL PACQ HOLD', 'HOLD PPRE HOLD', 'HOLD PACQ HOLD', 'HOLD PRIO1 HOLD'], PRIOS='{10,8,5,0}', POOLCAP=4,
+        DUR0='{4,1,9}', DUR1='{1,9}', DUR2='{2,9}', DUR3='{3,9}', w=8),
     fam('pool-preempt-4', ['PACQ HOLD PRELALL', 'PACQ HOLD PRELALL', 'HOLD PPRE HOLD PRELALL', 'TADD PACQ HOLD'], tier='thorough', PRIOS='{0,1,2,1}', w=60),
     fam('pool-symcap-3', ['PACQ HOLD PREL HOLD PRELALL', 'TADD PACQ HOLD PRELALL', 'HOLD PPRE HOLD'], tier='thorough', PRIOSYM=1, POOLCAP=0, w=60),
 ]
@@ -106,6 +111,8 @@ FAMILIES['C08'] = [
     fam('resource-drop-on-exit', ['ACQ HOLD EXIT', 'TADD ACQ HOLD', 'ACQ REL'], w=3),
     fam('pool-rollback-first', ['PACQ HOLD PRELALL', 'PACQ HOLD', 'HOLD INTR1', 'PACQ HOLD PRELALL'], POOLCAP=3, w=10),
     fam('pool-rollback-topup', ['PACQ HOLD PACQ HOLD PRELALL', 'PACQ HOLD PRELALL', 'HOLD INTR0'], POOLCAP=4, w=12),
+    fam('pool-rollback-topup-waiter', ['PACQ HOLD PACQ YIELD', 'PACQ YIELD', 'HOLD HOLD INTR0', 'HOLD PACQ YIELD'], POOLCAP=4, w=14),
+    fam('pool-rollback-first-waiter', ['PACQ YIELD', 'HOLD PACQ YIELD', 'HOLD HOLD INTR1', 'HOLD HOLD PACQ YIELD'], POOLCAP=3, w=10),
     fam('pool-leftovers', ['PACQ HOLD PRELALL', 'HOLD PACQ HOLD PRELALL', 'HOLD PACQ HOLD PRELALL'], POOLCAP=3, w=6),
     fam('pool-drop-on-stop', ['PACQ HOLD', 'PACQ HOLD PRELALL', 'HOLD STOP0', 'TADD PACQ'], w=6),
     fam('buffer-chain', ['BPUT HOLD BPUT', 'TADD BGET BGET'], BUFCAP=2, w=10),
@@ -127,6 +134,10 @@ FAMILIES['C09'] = [
     fam('stopped-in-waitp', ['HOLD HOLD', 'TADD WAITP0 HOLD', 'HOLD STOP1', 'WAITP1'], w=6),
     fam('stopped-in-waite', ['TADD WAITE HOLD', 'HOLD STOP0', 'WAITP0 HOLD'], w=4),
     fam('stop-self', ['ACQ PACQ TADD STOP0', 'WAITP0 ACQ REL', 'TADD PACQ'], w=3),
+    fam('ends-with-interrupt-pending', ['HOLD', 'HOLD INTR0 HOLD'], PRIOSYM=1, w=3),
+    fam('stopped-with-resume-pending', ['YIELD HOLD', 'HOLD RESUME0 STOP0 HOLD'], w=2),
+    fam('exits-with-interrupt-pending', ['HOLD EXIT', 'HOLD INTR0', 'WAITP0'], PRIOSYM=1, w=4),
+    fam('stopped-with-interrupt-and-resume-pending', ['YIELD', 'HOLD RESUME0 INTR0 HOLD', 'HOLD STOP0'], PRIOSYM=1, w=4),
     fam('stopped-with-pending-wakeup', ['ACQ HOLD REL', 'ACQ HOLD', 'HOLD STOP1', 'ACQ REL'], SAMEPRIO=1, w=4),
     fam('stopped-in-condition', ['TADD CWAIT HOLD', 'HOLD STOP0', 'WAITP0 CSET CSIG'], w=3),
     fam('stopped-in-buffer-put', ['BPUT BPUT HOLD', 'HOLD STOP0', 'WAITP0 BGET'], BUFCAP=2, w=4),
